@@ -37,8 +37,9 @@ class Universe(object):
         p = profile
         self.schemes = [b"s:http|", b"s:https|"] + ([b"s:ftp|"] if rng.random() < 0.2 else [])
         self.ports = [b"t:80|", b"t:8080|"]
-        self.tlds = rng.sample([b"h:com|", b"h:org|", b"h:fr|"], 2)
-        self.doms = rng.sample([b"h:ex|", b"h:a|", b"h:b|", b"h:world|"], rng.choice([2, 3]))
+        self.tlds = rng.sample([b"h:com|", b"h:org|", b"h:fr|"], 1 if p.get("concentrate") else 2)
+        self.doms = rng.sample([b"h:ex|", b"h:a|", b"h:b|", b"h:world|"],
+                               rng.choice([1, 2]) if p.get("concentrate") else rng.choice([2, 3]))
         self.subs = [b"h:www|"] + rng.sample([b"h:blog|", b"h:m|", b"h:x|"], 1)
         self.locals = [b"h:localhost|", b"h:127.0.0.1|", b"h:[::1]|"]
         paths = [b"p:a|", b"p:b|", b"p:c|", b"p:d|"]
@@ -135,7 +136,7 @@ class Universe(object):
 DEFAULT_WEIGHTS = {
     "AddPage": 22, "AddPages": 8, "AddLinks": 14, "IndexBatchCrawl": 10, "CreateWe": 8,
     "DeleteWe": 4, "AddPrefix": 5, "RemovePrefix": 4, "MovePrefix": 3, "AddRule": 5,
-    "RemoveRule": 2, "Reopen": 3, "Clear": 1,
+    "RemoveRule": 2, "Reopen": 3, "Clear": 1, "Paginate": 0, "PagLinks": 0,
 }
 
 
@@ -159,6 +160,7 @@ class Driver(object):
             self.weights["Reopen"] = 0
         self.dropped_family = 0
         self.last_pages = []
+        self.sess = None      # pagination session in progress
 
     def family_ok(self, lrus):
         rules = [self.default] + list(self.ram.values())
@@ -176,6 +178,8 @@ class Driver(object):
         we = {}
         for lru, wid in obs["we"]:
             we.setdefault(wid, []).append(lru)
+        if self.sess is not None and rng.random() < self.profile.get("continue", 0.6):
+            return dict(self.sess)
         for _ in range(50):
             name = rng.choices(list(self.weights), weights=list(self.weights.values()))[0]
             op = self.make(name, we)
@@ -195,6 +199,18 @@ class Driver(object):
             self.note(op)
             return op
         return {"op": "AddPage", "l": u.lrus[0], "cr": False}
+
+    def feedback(self, op, res):
+        """Result of the request just executed (pagination sessions continue with its token)."""
+        if op["op"] in ("Paginate", "PagLinks"):
+            ret = res.get("ret")
+            if res["exc"] or not isinstance(ret, dict) or ret.get("done") or not ret.get("token"):
+                self.sess = None
+            else:
+                self.sess = dict(op)
+                self.sess["token"] = ret["token"]
+        elif op["op"] == "Clear":
+            self.sess = None
 
     def note(self, op):
         n = op["op"]
@@ -327,6 +343,21 @@ class Driver(object):
             if not self.ram:
                 return None
             return {"op": name, "anchor": rng.choice(sorted(self.ram))}
+        if name in ("Paginate", "PagLinks"):
+            if not ids:
+                return None
+            # prefer webentities with many pages beneath their prefixes
+            def npages(x):
+                return sum(1 for l, _ in self.last_pages if any(l.startswith(p) for p in we[x]))
+            ranked = sorted(ids, key=npages, reverse=True)
+            w = rng.choice(ranked[:2] * 3 + ids)
+            ps = list(we[w])
+            rng.shuffle(ps)
+            k = rng.choice([1, 1, 1, 2, 2, 3, 0]) if rng.random() < 0.93 else rng.choice([4, 5, 8])
+            if name == "Paginate":
+                return {"op": name, "id": w, "ps": ps, "k": k, "co": rng.random() < 0.3, "token": None}
+            io = rng.choice([(True, False), (True, True), (False, True)])
+            return {"op": name, "id": w, "ps": ps, "k": k, "int": io[0], "out": io[1], "token": None}
         if name == "Reopen":
             return {"op": name, "def": self.default, "rules": sorted(self.ram.items())}
         if name == "Clear":
